@@ -62,16 +62,18 @@ ParsedTagsOk(mm, o, dev) ==
        LET t == o.tags[j] IN
        /\ t.name \in TagNames(mm)
        /\ t.ty = mm.tags[TagIx(mm, t.name)].ty
-       /\ IdxOk(t.files, Members(mm, t.name))
-       /\ t.count = Cardinality(Members(mm, t.name)) + (IF dev THEN Cardinality(StrayOf(mm, t.name)) ELSE 0)
-       /\ ("q1" \in DOMAIN t => IdxOk(t.q1, Members(mm, t.name)))
+       /\ LET mem == Members(mm, t.name) IN
+          /\ IdxOk(t.files, mem)
+          /\ t.count = Cardinality(mem) + (IF dev THEN Cardinality(StrayOf(mm, t.name)) ELSE 0)
+          /\ ("q1" \in DOMAIN t => IdxOk(t.q1, mem))
   /\ {o.tags[j].name : j \in 1..Len(o.tags)} = TagNames(mm)
 
 QueryOk(mm, T, a) ==
+  LET fa == FilesAll(mm, T) IN
   /\ IF T = {} THEN (a.all = <<>> \/ IdxOk(a.all, AllPos(mm)))      \* the empty combination is left open
-     ELSE IdxOk(a.all, FilesAll(mm, T))
+     ELSE IdxOk(a.all, fa)
   /\ ("any" \in DOMAIN a => IdxOk(a.any, FilesAny(mm, T)))
-  /\ Pair(a.size) = (IF T = {} THEN SizeOfSet(mm, SetOfSeq(a.all)) ELSE SizeFor(mm, T))
+  /\ Pair(a.size) = (IF T = {} THEN SizeOfSet(mm, SetOfSeq(a.all)) ELSE SizeOfSet(mm, fa))
 
 QueriesOk(e, mm) ==
   /\ Len(e.obs.q) = Len(e.q)
